@@ -9,7 +9,9 @@
                whether the memory is still in the inventory (`known`), the clock, and ghost counters
                (`live` = runner tasks alive, `spawns`).
   * `stage`  — the if/elif chain of `stop_daemons` (regenerated from the AST, see Tie/C09.lean).
-  * `stopOne`— `stop_daemons` for one daemon;  `cycle` — `process_spawning_cause` for this id;
+  * `stopOne`— `stop_daemons` for one daemon;  `cycle` — `process_spawning_cause` for this id: `spawnAct` (what
+               `spawn_daemons` does for one selected handler), `matchVisits` / `revisitNow` (whom `match_daemons` hands to
+               `stop_daemons`, when it asks for an immediate re-visit) — all three regenerated from the AST as well;
   * `step`   — the labelled transition system: a processing cycle, the daemon killer's `stop_daemon`
                stages, the instance ending (`_runner`'s `finally`), time passing.
   * `tstep`  — micro-steps of `_timer`'s control flow, each tagged suspending or not.
@@ -40,11 +42,16 @@ structure Cfg where
                                 -- memory are stopped by background `stop_daemon`s and nothing is spawned for it
   marksExiting : Bool := true   -- tree variant (since /repo 1d3a667): the killer's exit sweep first marks the
                                 -- memories `operator_exiting`; `spawn_daemons` spawns nothing then
+  escorts : Bool := true        -- tree variant (since /repo ef26531): `match_daemons` keeps visiting a daemon that carries
+                                -- FILTERS_MISMATCH also when its handler matches again (and asks for an immediate re-visit
+                                -- when it has ended meanwhile); `spawn_daemons` returns a re-check delay when it skips a
+                                -- selected handler whose previous instance is still stopping
   deriving DecidableEq, Repr
 
-/-- the variants of the tree under test (tied to the AST: `Tie.stops_gone`, `Tie.marks_exiting`) -/
+/-- the variants of the tree under test (tied to the AST: `Tie.stops_gone`, `Tie.marks_exiting`, `Tie.spawn_act_eq`, `Tie.match_visits_eq`, `Tie.revisit_now_eq`) -/
 def treeStopsGone : Bool := true
 def treeMarksExiting : Bool := true
+def treeEscorts : Bool := true
 
 def Cfg.b0 (c : Cfg) : Tick := c.backoff.getD 0     -- `(backoff or 0)`
 def Cfg.t0 (c : Cfg) : Tick := c.timeout.getD 0
@@ -233,6 +240,53 @@ def stopIf (c : Cfg) (s : St) (cond : Bool) (r : Reason) (ex : Ex) : St × List 
 def St.spawnBlocked (c : Cfg) (s : St) : Bool :=
   (c.marksExiting && s.exitAt.isSome) || (c.stopsGone && s.goneAt.isSome)
 
+/-- `running_daemons[id].stopper.is_set()`: the previous instance is there and was asked to stop (for whatever reason) -/
+def St.stopping (s : St) : Bool :=
+  match s.run with
+  | some i => !i.reasons.isEmpty
+  | none => false
+
+/-- `running_daemons[id].stopper.is_set(reason=FILTERS_MISMATCH)` -/
+def St.flaggedMismatch (s : St) : Bool :=
+  match s.run with
+  | some i => i.has .mismatch
+  | none => false
+
+/-! #### what the translator reads of `spawn_daemons` and `match_daemons` (Tie/C09.lean: `spawn_act_eq`, `match_visits_eq`,
+     `revisit_now_eq`); `escorts` = the tree variant since /repo ef26531 -/
+
+/-- What `spawn_daemons` does for ONE selected handler. -/
+structure SpawnAct where
+  spawn : Bool             -- a new `Daemon` record with a fresh stopper and a runner task
+  delay : Option Delay     -- `delays.append(...)`
+  deriving DecidableEq, Repr
+
+/-- `if handler.id in daemons: (if daemons[handler.id].stopper.is_set(): delays.append(polling)) else: <spawn>`;
+    before ef26531: `if handler.id not in daemons: <spawn>` and no delay at all. -/
+def spawnAct (escorts idTaken stopperSet : Bool) : SpawnAct :=
+  if idTaken then
+    (if escorts && stopperSet then { spawn := false, delay := some .polling } else { spawn := false, delay := none })
+  else { spawn := true, delay := none }
+
+/-- `match_daemons`' selection of a running daemon: its handler is not among the selected ones, or (since ef26531) it
+    carries FILTERS_MISMATCH — once asked for a mismatch, escorted to the end whatever the object does. -/
+def matchVisits (escorts notSelected flaggedMismatch : Bool) : Bool := notSelected || (escorts && flaggedMismatch)
+
+/-- `any(id in matching_daemon_ids and id not in daemons for id in mismatching_daemons)` for one visited daemon (since
+    ef26531): it has ended in the visit while it is selected → `delays.append(0)`. -/
+def revisitNow (escorts selected gone : Bool) : Bool := escorts && selected && gone
+
+def escorted (c : Cfg) (selected : Bool) (s : St) : Bool := matchVisits c.escorts (!selected) s.flaggedMismatch
+
+/-- `match_daemons` then `pause_daemons` of an unmarked cycle, after `spawn_daemons` has left the state `s1` and the delays
+    `ds`: the visited (`visits`) are (further) stopped for FILTERS_MISMATCH; `delays.append(0)` as `revisit` says of whether
+    the instance is gone after that visit; then the pause stop (strictly after the spawning, #1266). -/
+def cycleCore (c : Cfg) (inp : CycIn) (s1 : St) (ds : List Tick) (visits : Bool) (revisit : Bool → Bool) : St × List Tick :=
+  let p2 := stopIf c s1 visits .mismatch inp.ex1
+  let dz := if revisit p2.1.run.isNone then [0] else []
+  let p3 := stopIf c p2.1 inp.paused .pausing inp.ex2
+  (p3.1, ds ++ p2.2 ++ dz ++ p3.2)
+
 def cycle (c : Cfg) (inp : CycIn) (s : St) : St × List Tick :=
   -- DELETED: `memories.forget`, then `stop_daemons_of_gone_object` marks the memory (its background
   -- `stop_daemon`s are the label `kBegin .deleted`, at this very instant: `tickOk`)
@@ -241,10 +295,16 @@ def cycle (c : Cfg) (inp : CycIn) (s : St) : St × List Tick :=
     stopIf c s true .deleted inp.ex1                       -- stop_daemons(all running)
   else
     let selected := inp.matching && !s.forever              -- get_handlers(cause, excluded=forever_stopped)
-    let s1 := if selected && s.run.isNone && !s.spawnBlocked c then spawn s else s    -- spawn_daemons
-    let (s2, dm) := stopIf c s1 (!selected) .mismatch inp.ex1      -- match_daemons
-    let (s3, dp) := stopIf c s2 inp.paused .pausing inp.ex2        -- pause_daemons (strictly after spawning)
-    (s3, dm ++ dp)
+    -- spawn_daemons (its loop reaches this handler when it is selected and the memory is not marked exiting / gone):
+    -- a new instance if the id is free; a re-check delay if the previous instance is still stopping
+    let reached := selected && !s.spawnBlocked c
+    let sa := spawnAct c.escorts s.run.isSome s.stopping
+    let s1 := if reached && sa.spawn then spawn s else s
+    let ds := if reached then (sa.delay.map (delayVal c 0)).toList else []
+    -- match_daemons: the not selected and the flagged-for-mismatch are (further) stopped; `delays.append(0)` when one
+    -- of the visited has ended right now while it is selected (the spawning of this cycle has skipped it)
+    cycleCore c inp s1 ds (escorted c selected s)
+      (fun gone => s1.run.isSome && escorted c selected s && revisitNow c.escorts selected gone)
 
 /-! ### The killer's periodic re-sweep while the operator is paused, and the urgency of its timers -/
 
